@@ -157,7 +157,7 @@ prop('C18', [A.rule_a8_dec, X.rule_nonevalue, T.rule_pair_ber, Z.rule_any_captur
      'Raw capture of an indefinite-length TLV is complete (header re-read <=> end-of-octets appended); raw octets are '
      'handed back only to a collecting caller; ANY resolves to the ANY codec in every by-type table.  Equality of the '
      'resolved value is not decided.',
-     {'A8.dec': 1, 'A13.raw': 1, 'A6.mapref': 2})
+     {'A8.dec': 1, 'A13.raw': 1, 'A6.mapref': 1})
 
 prop('C19', [S.rule_field, S.rule_pep479, S.rule_companion, S.rule_commit, S.rule_bounds, S.rule_schema_ops, A.rule_c04_clone, R.rule_position_order],
      'Container state machines: methods invoked on the component store exist on its shape; no StopIteration raised in '
